@@ -56,7 +56,7 @@ TOL_POW = 1e-11
 KF_IMUL = 'KF-imul-alias'
 KF_RTRUEDIV = 'KF-rtruediv'
 KF_POWC = 'KF-pow-complex-exponent'
-KF_IDIV = 'KF-itruediv-lower-rank'
+KF_IDIV = 'KF-itruediv-lower-rank-rhs'
 KF_POWNPINT = 'KF-pow-npint-zero-base'
 KF_RPOW32 = 'KF-rpow-float32-base'
 
@@ -841,17 +841,17 @@ def buckets(tier):
                 heavy = (op in ('mul', 'truediv'))
                 bl.append(Bucket('%s:%s:%s' % (op, lk, rk),
                                  (lambda op=op, lk=lk, rk=rk: binary_cases(op, lk, rk, tier)), prop,
-                                 {'quick': 100, 'thorough': 1200}, nontrivial=_nontrivial, classes=_classes,
+                                 {'quick': 100, 'thorough': 1000}, nontrivial=_nontrivial, classes=_classes,
                                  weight=(3.0 if heavy else 1.0) * _heavy(lk, rk)))
     for op in OPS:
         for fam in ('utpm', 'pyscalar', 'npscalar', 'ndarray', 'alias'):
             bl.append(Bucket('i%s:%s' % (op, fam), (lambda op=op, fam=fam: inplace_cases(op, fam, tier)), prop,
-                             {'quick': 140, 'thorough': 1500}, nontrivial=_nontrivial, classes=_classes,
-                             weight=3.0 if fam in ('utpm', 'alias') else 1.5))
+                             {'quick': 140, 'thorough': 650}, nontrivial=_nontrivial, classes=_classes,
+                             shards={'quick': 1, 'thorough': 2}, weight=3.0 if fam in ('utpm', 'alias') else 1.5))
     for kind in ('int', 'negint', 'npint', 'real', 'complex', 'rpow', 'utpm'):
         slow = kind in ('real', 'complex', 'rpow', 'utpm')
         bl.append(Bucket('pow:' + kind, (lambda kind=kind: pow_cases(kind, tier)), prop,
-                         {'quick': 70 if slow else 120, 'thorough': 400 if slow else 1500},
+                         {'quick': 70 if slow else 120, 'thorough': 350 if slow else 1200},
                          nontrivial=_nontrivial, classes=_classes,
                          shards={'quick': 1, 'thorough': 3 if slow else 1}, weight=12.0 if slow else 4.0))
     return bl
